@@ -22,7 +22,7 @@ type LedgerConfig struct {
 	Focus                          bool
 	NoPost                         bool // do not record post-states in the behaviours (verdict-only replay)
 	EmitAll                        bool // exhaustive generation: print every behaviour that ends at the height bound or in a rejected block
-	EmitDepth                      int // > 0: print the behaviour when the trace reaches this length (generation)
+	EmitDepth                      int  // > 0: print the behaviour when the trace reaches this length (generation)
 }
 
 func ints(xs []int) string {
